@@ -26,7 +26,7 @@ GEN = {   # family: (quick N, thorough N)
     'bits': (12, 16), 'hextxt': (4, 5), 'b64txt': (4, 5), 'radix': (3, 4), 'toradix': (3, 4), 'cp': (2, 3), 'dec': (2, 3),
     'url': (0, 0), 'urltxt': (4, 5), 'val': (1, 2), 'bad': (0, 0),
 }
-TV_CHUNK_BYTES = 24 << 20
+TV_CHUNK_BYTES = 16 << 20
 
 
 def strip(e, cap=400):
@@ -161,18 +161,23 @@ def report(ctx, events, rej, drift):
 
 def gen_arm(ctx, binp):
     thorough = ctx.tier == 'thorough'
-    jobs = []
-    fam_counts = {}
-    for fam, (q, t) in GEN.items():
-        n = t if thorough else q
-        g = ctx.tlc('LawsGen', 'gen_%s.cfg' % fam, timeout=1500,
-                    cfg_text='SPECIFICATION GSpec\nCONSTANTS Family = "%s"\n N = %d\nCONSTRAINT Emit\nCHECK_DEADLOCK FALSE\n' % (fam, n))
-        ctx.tlc_expect_ok(g, 'LawsGen ' + fam)
-        if not g.printed or g.distinct != len(g.printed):
-            raise Inconclusive('GEN %s: %d cases printed for %d states' % (fam, len(g.printed), g.distinct))
-        fam_counts[fam] = dict(N=n, cases=len(g.printed))
-        jobs += g.printed
-    ctx.cov['gen_families'] = fam_counts
+    names = {'bits': 'NBits', 'hextxt': 'NHexTxt', 'b64txt': 'NB64Txt', 'radix': 'NRadix', 'cp': 'NCp', 'dec': 'NDec', 'urltxt': 'NUrlTxt', 'val': 'NVal'}
+    consts = {c: (GEN[f][1] if thorough else GEN[f][0]) for f, c in names.items()}
+    cfg = ('SPECIFICATION GSpec\nCONSTANTS Families = {%s}\n' % ', '.join('"%s"' % f for f in GEN) +
+           ''.join(' %s = %d\n' % kv for kv in sorted(consts.items())) + 'CONSTRAINT Emit\nCHECK_DEADLOCK FALSE\n')
+    g = ctx.tlc('LawsGen', 'gen_laws.cfg', timeout=2400, cfg_text=cfg)
+    ctx.tlc_expect_ok(g, 'LawsGen')
+    if len(g.printed) < 50000 or g.distinct != len(g.printed):
+        raise Inconclusive('GEN: %d cases printed for %d states' % (len(g.printed), g.distinct))
+    jobs = sorted(g.printed, key=lambda j: json.dumps(j, sort_keys=True))     # TLC workers print in any order
+    fam_of = {'bin': 'bits', 'unhex': 'hextxt', 'unb64': 'b64txt', 'fromradix': 'radix', 'toradix': 'toradix', 'enc': 'cp', 'dec': 'dec',
+              'url': 'url', 'unurl': 'urltxt', 'ser': 'val', 'bad': 'bad'}
+    fam_counts = {f: dict(cases=0) for f in GEN}
+    for j in jobs:
+        fam_counts[fam_of[j['k']]]['cases'] += 1
+    if any(v['cases'] == 0 for v in fam_counts.values()):
+        raise Inconclusive('GEN: a family produced no case: %s' % fam_counts)
+    ctx.cov['gen_constants'] = consts
     jp = os.path.join(ctx.build, 'gen_jobs.ndjson')
     vlib.write_ndjson(jp, jobs)
     ep = os.path.join(ctx.build, 'gen_events.ndjson')
@@ -193,7 +198,7 @@ def gen_arm(ctx, binp):
 
 
 def rand_arm(ctx, binp):
-    n = 30000 if ctx.tier == 'thorough' else 5000
+    n = 30000 if ctx.tier == 'thorough' else 3000
     ep = os.path.join(ctx.build, 'rand_events.ndjson')
     ctx.run([binp, 'rand', str(n), ep], check=True, timeout=1800)
     events = vlib.read_ndjson(ep)
